@@ -116,7 +116,7 @@ Section Sh.
       pose proof (handle_items_shape S true g items (set_res c2 []) (res c2) (incl_refl _)) as P2.
       destruct (handle_items g (set_res c2 []) (res c2) items) as [[c3 old] o2].
       pose proof (finish_resync_shape S c3 old) as P3. destruct (finish_resync ord c3 old) as [c4 o3]. cbn in P1, P2, P3.
-      destruct (N.eqb lrev 0).
+      destruct (zero_rev lrev).
       + destruct items; [|discriminate]. unfold seq2. lt_shape S true. intros H. apply some_inj, pair_inj in H. destruct H as [_ <-].
         cbn in PL. repeat (apply Forall_app; split); auto.
       + intros H. apply some_inj, pair_inj in H. destruct H as [_ <-]. repeat (apply Forall_app; split); auto.
